@@ -157,17 +157,18 @@ theorem failed_commit_keeps_state_partial (bound : Nat) (s : State) (hr : Reacha
     (payload 5), links it from the root and commits: conflict on the root after object 1 was stored -/
 def lostStateProgram : List Op := [.ext 0 7, .modify 1 5, .add 1, .link 0 1, .commit .none]
 
-/-- **failed_commit_loses_state** (negation witness of the full statement).  `lostStateProgram` is a C11
-    program; its commit fails with a conflict; afterwards object 1 — new, not a ghost, payload 5 before
-    the commit — belongs to no database and is a ghost: its state is lost. -/
-theorem failed_commit_loses_state :
+/-- the program of the former finding C11:stored-new-object-ghostified-on-abort (fixed): `storedNewProgram` is
+    a C11 program; its commit fails with a conflict after object 1 was stored; afterwards object 1 — new, not
+    a ghost, payload 5 before the commit — belongs to no database and STILL HAS its state. -/
+theorem stored_new_object_keeps_state :
     (∀ op ∈ lostStateProgram, c11 op = true) ∧
     ((run 3 init (lostStateProgram.take 4)).objs 1).status = .uptodate ∧
     ((run 3 init (lostStateProgram.take 4)).objs 1).val = 5 ∧
     (txnCommit 3 (run 3 init (lostStateProgram.take 4)) .none).2.isFailed = true ∧
     ((run 3 init lostStateProgram).objs 1).oid = none ∧
-    ((run 3 init lostStateProgram).objs 1).status = .ghost ∧
-    (run 3 init lostStateProgram).d2 = true := by
+    ((run 3 init lostStateProgram).objs 1).status = .uptodate ∧
+    ((run 3 init lostStateProgram).objs 1).val = 5 ∧
+    (run 3 init lostStateProgram).d2 = false := by
   decide
 
 /-- **ghost_shows_committed.**  "shows its last committed state again on next access": in every reachable
